@@ -189,6 +189,7 @@ def run(rep, tier, seed):
     from contracts.c04_images import all_contracts
     cs, table = all_contracts(tier)
     run_contracts(rep, cs, table, tier=tier, pid="C04", replayers=[(r"\.frame\.", _replay_frame), (r"_transform|linear_ramp", _replay_search)])
+    rep.assume("D28 element types: allocations with dtype=x.dtype / full_like / empty_like / piecewise keep the integer type of an integer-typed argument (integer-typed variants of the contracts)")
     _purity(rep, seed)
     rep.assume("kernel validity and accuracy = C13 (sbvn_cdf / bvn_cdf enter through their contracts); user kernels / weights are pure functions of their arguments",
                "D9 meshgrid(indexing='ij') + flatten('C') + reshape('C') cancel (structural model); D8 erfc",
